@@ -432,11 +432,10 @@ func checkRegionCallSites(c *fw.Ctx, rule string, region []*ssa.Function) {
 		if len(caller.Params) == 0 {
 			continue
 		}
-		own := map[ssa.Value]bool{ssa.Value(caller.Params[0]): true}
-		if cl, _ := namedPanicClass(fw.FuncName(caller)); cl == "" {
-			for _, p := range caller.Params {
-				own[p] = true
-			}
+		// (the receiver is the event; the other parameters of an accessor are the local caller's)
+		own := map[ssa.Value]bool{}
+		for _, p := range caller.Params {
+			own[p] = true
 		}
 		for _, call := range fw.Calls(caller) {
 			callee := call.Common().StaticCallee()
